@@ -1,5 +1,14 @@
 import SecpZkp.Driver.Basic
 import SecpZkp.Driver.Generator
+import SecpZkp.Driver.Ellswift
+import SecpZkp.Driver.Adaptor
+import SecpZkp.Driver.S2c
+import SecpZkp.Driver.Whitelist
+import SecpZkp.Driver.Halfagg
+import SecpZkp.Driver.Bppp
+import SecpZkp.Driver.Rangeproof
+import SecpZkp.Driver.Musig
+import SecpZkp.Driver.Surjection
 import Std.Data.HashMap
 /-
   secpmodel: reads one operation per line on stdin, prints the model's result line.
@@ -7,7 +16,7 @@ import Std.Data.HashMap
 open SecpZkp SecpZkp.Driver
 
 def allHandlers : List (String × Handler) :=
-  basicHandlers ++ generatorHandlers
+  basicHandlers ++ generatorHandlers ++ ellswiftHandlers ++ adaptorHandlers ++ s2cHandlers ++ whitelistHandlers ++ halfaggHandlers ++ bpppHandlers ++ rangeproofHandlers ++ musigHandlers ++ surjectionHandlers
 
 def table : Std.HashMap String Handler := Std.HashMap.ofList allHandlers
 
